@@ -30,7 +30,8 @@ OBSERVATIONS = {
     "X04/nonce-pool-unsynchronised":
         "protocol: a nonce is used at most once.  getChallenges posts new-authz for all domains from one goroutine each, and all of them "
         "take nonces from the same slice (jws.nonces) without synchronisation: the race detector reports jws.Nonce / getNonceFromResponse, "
-        "and now and then two requests carry the same nonce (the server answers badNonce, the domain fails) or the pop panics",
+        "and now and then two requests carry the same nonce (the server answers badNonce, the domain fails), a nonce the server "
+        "handed out is lost (a HEAD where the client should hold one) or the pop panics (slice bounds out of range, the process dies)",
     "X04/authz-without-next-link-hangs":
         "documentation of ObtainCertificate: 'If one domain in the list fails, the whole certificate will fail' (a map of failures is "
         "returned).  Observed: a new-authz answer without Link rel=\"next\" makes the domain's goroutine return without reporting to either "
@@ -148,7 +149,7 @@ def allowed_text(allowed):
     return " | ".join(ev_text(a) for a in allowed[:3]) + (" | ... (%d alternatives)" % len(allowed) if len(allowed) > 3 else "")
 
 
-def classify(tr, k):
+def classify(tr, k, allowed=None):
     """Name of the observation a rejected event (line k, 0-based) is an instance of, or None."""
     e = tr.evs[k]
     s, start, sc = tr.session_of(k)
@@ -176,8 +177,15 @@ def classify(tr, k):
         fl = e["x"][0] if e["a"] == "obtain" else [d for d in range(1, sc["n"] + 1) if sc["offer"][d - 1] == "nocombo"]
         if fl and all(sc["offer"][d - 1] == "nocombo" and "http-01" not in sc["excl"] for d in fl):
             return "X04/no-combinations-unsolvable"
-    if e["e"] == "http" and e["a"] == "new-authz" and e["st"] == "badnonce!" and sc["n"] >= 2 and e["n"]:
-        if any(b["e"] == "http" and b["a"] == "new-authz" and b["n"] == e["n"] for b in this_call):
+    if e["e"] == "http" and sc["n"] >= 2:
+        # the pool after (or during) a phase in which several goroutines used it without synchronisation
+        authz = [b for b in before if b["e"] == "http" and b["a"] == "new-authz"]
+        if e["st"] == "badnonce!" and e["n"]:
+            # the same nonce twice: both takers, or at least the first, belong to a concurrent phase
+            if any(b["n"] == e["n"] for b in authz) or (e["a"] == "new-authz" and any(b.get("n") == e["n"] for b in this_call if b["e"] == "http")):
+                return "X04/nonce-pool-unsynchronised"
+        if e["a"] == "head" and authz and isinstance(allowed, list) and allowed and all(a["e"] == "http" and a["n"] for a in allowed):
+            # a nonce was lost (two appends on the same slice header): the client fetches one although it was given one
             return "X04/nonce-pool-unsynchronised"
     return None
 
@@ -267,7 +275,7 @@ def self_test(ctx, traces, rejected):
 
 def run(ctx):
     quick = ctx.tier == "quick"
-    rounds = 3 if quick else 12
+    rounds = 3 if quick else 8
     ctx.rule = ("a case is one session of the real acme package (NewClient, Register, AgreeToTOS, ObtainCertificate for 1-%d domains, then "
                 "RevokeCertificate / RenewCertificate / a second ObtainCertificate) against a fake ACME server that follows a script: the "
                 "answer to new-reg, reg, every new-authz (ok / error / badNonce / no next link), the challenges and combinations offered, "
@@ -291,22 +299,21 @@ def run(ctx):
         "with what the server issued",
         "tls-sni-01 / http-01 servers of the package listen on a free loopback port picked by the harness; dns-01 has no solver in this package",
     ]
-    for m in ("Acme", "MC_Acme", "Trace_Acme"):
+    for m in ("MC_Acme", "Trace_Acme"):          # both extend Acme
         ctx.sany("acme", m)
 
     # MC + GEN: every script of a family is model-checked and printed as a case
     cases = {}
-    for fam in FAMILIES:
+    for fam in (["all"] if quick else FAMILIES):     # quick: the union of the (smaller) families in one run
         cases[fam] = os.path.join(ctx.out, "cases_%s.ndjson" % fam)
-        ctx.tlc("acme", "MC_Acme", "MC_Acme.%s.%s.cfg" % (fam, ctx.tier), cases_to=cases[fam], timeout=800,
-                coverage=(not quick and fam in ("multi",)))
+        ctx.tlc("acme", "MC_Acme", "MC_Acme.%s.%s.cfg" % (fam, ctx.tier), cases_to=cases[fam], timeout=800)
     # non-vacuity: each named deviation is caught by the invariant that states the clause it breaks
     for cfg, inv in (DEVIATIONS[:3] if quick else DEVIATIONS):
         ctx.tlc("acme", "MC_Acme", cfg, expect_violation=inv, count_states=False, workers=2)
 
     scripts = []
-    for fam in FAMILIES:
-        got = ctx.load_cases(cases[fam])
+    for fam in sorted(cases):
+        got = sorted(ctx.load_cases(cases[fam]))
         if len(set(got)) != len(got) or not got:
             raise vlib.Broken("family %s: %d scripts, %d distinct" % (fam, len(got), len(set(got))))
         scripts += got
@@ -330,8 +337,8 @@ def run(ctx):
     def observe(key, stage, case, r):
         observations.setdefault(key, []).append((stage, case, r))
 
-    def record(tag, path, chunk=400):
-        """Record the sessions of a script file, `chunk` sessions per process; returns the concatenated trace."""
+    def record(tag, path, base, chunk=400):
+        """Record the sessions of a script file, `chunk` sessions per process (session ids from `base`); returns lines and results."""
         all_scripts = ctx.load_cases(path)
         lines, results = [], []
         for first in range(0, len(all_scripts), chunk):
@@ -343,7 +350,7 @@ def run(ctx):
             res = None
             for attempt in range(5):
                 try:
-                    res = ctx.replay(STAGE, part, race=True, dir=d, env_extra=_gorace(d), extra={"first": first})
+                    res = ctx.replay(STAGE, part, race=True, dir=d, env_extra=_gorace(d), extra={"first": base + first})
                     break
                 except (vlib.Broken, vlib.LibraryCrash):
                     err = getattr(ctx, "last_stderr", "") or ""
@@ -369,19 +376,18 @@ def run(ctx):
             got = [l for l in open(res[0]["info"]["trace"]) if l.strip()]
             lines += got[:-1]       # without the closing eof
             results += res
-        whole = _write(os.path.join(ctx.out, "trace_%s.ndjson" % tag), lines)
-        return Trace(whole), results
+        return lines, results
 
     keep = []
-    traces = []
-    batches = [("seq", seq), ("conc", conc)]
-    results = {}
-    for tag, path in batches:
-        tr, res = record(tag, path)
-        traces.append(tr)
-        results[tag] = res
-        if len(tr.starts) != len(res):
-            raise vlib.Broken("batch %s: %d sessions recorded for %d scripts" % (tag, len(tr.starts), len(res)))
+    lines, results = [], []
+    for tag, path in (("seq", seq), ("conc", conc)):
+        ls, res = record(tag, path, len(results), chunk=(600 if tag == "seq" else 400))
+        lines += ls
+        results += res
+    tr = Trace(_write(os.path.join(ctx.out, "trace_all.ndjson"), lines))
+    traces = [tr]
+    if len(tr.starts) != len(results) or [tr.evs[k]["sess"] for k in tr.starts] != list(range(len(results))):
+        raise vlib.Broken("%d sessions recorded for %d scripts" % (len(tr.starts), len(results)))
 
     # TRACE: every recorded session against the specification
     rejected = set()
@@ -415,7 +421,7 @@ def run(ctx):
             what = ("not allowed by the specification: %s.  Allowed there: %s.  [event %d of session %d, script %s]"
                     % (ev_text(e), allowed_text(allowed), k - start, sess, json.dumps(dict((a, b) for a, b in sc.items() if a != "fam"))))
             r = {"ok": False, "what": what, "observed": dict((f, e.get(f)) for f in FIELDS + ("why",)), "expected": allowed if isinstance(allowed, list) else [],
-                 "deviation": classify(tr, k) or ""}
+                 "deviation": classify(tr, k, allowed) or ""}
             if r["deviation"]:
                 observe(r["deviation"], STAGE, sc, r)
             else:
